@@ -60,6 +60,7 @@ def run(an: Analysis, rep):
     rep.run(c09.unreferenced_rules, an, sht)
     rep.run(c08.r082, an, sht)
     rep.run(ordering_rule, an, rep, "R14.5", ["iter", "all_code_data"])
+    rep.run(decoded_placement_rule, an, rep)
     tg = an.tg
     ci = an.prog.cls(ROOT)
     it, ret = an.interp("iter")
@@ -263,3 +264,66 @@ def run(an: Analysis, rep):
         if not found:
             rep.add("R14.3", "code_data.module_codes::reference walk", False, mc.relpath, "no recursive co_consts walk found", warn=True)
     rep.stats.update(an.stats([it, it2]))
+
+
+def decoded_placement_rule(an: Analysis, rep, rule="R14.6"):
+    """Where the decoder can put a decoded nested code object: for every field of every data-class instance the decode closure builds, a CodeData
+    instance is found only at positions where the field's declared type has one (the positions __iter__ is checked against by R14.1).  A decoder
+    that starts to look inside tuple / frozenset constants builds CodeData values the traversal never reaches."""
+    rep.rule(rule, "a decoded nested code object is stored only where the declared types (and the traversal) expect one", 1)
+    tg = an.tg
+    n_fields = 0
+    from .common import data_classes
+    model = {c.qual for c in data_classes(an)}
+    for V in VERSIONS:
+        it, _ = an.interp("from_code", V)
+        for (o, fld), vals in list(it.heap.items()):
+            if o[0] != "obj" or not (isinstance(fld, tuple) and len(fld) == 2 and fld[0] == "a"):
+                continue
+            cq = it.obj_class(o)
+            ci = an.prog.cls(cq) if cq else None
+            f = ci.field(fld[1]) if ci is not None and ci.qual in model else None
+            if f is None:
+                continue
+            n_fields += 1
+            bad = []
+
+            def allowed(t, seen=()):
+                """(CodeData allowed here, element types one container level down)"""
+                t = tg.unfold_rec(t)
+                here, elems = False, []
+                k = t[0]
+                if k == "class":
+                    here = t[1] == ROOT
+                elif k in ("tuple", "frozenset", "list", "set"):
+                    elems.append(t[1])
+                elif k == "tuplefix":
+                    elems.extend(t[1])
+                elif k == "union":
+                    for s in t[1]:
+                        h, e = allowed(s)
+                        here = here or h
+                        elems.extend(e)
+                elif k == "dict":
+                    elems.append(t[2])
+                return here, elems
+
+            def walk(ts, atoms, depth, seen):
+                here = any(allowed(t)[0] for t in ts)
+                below = [e for t in ts for e in allowed(t)[1]]
+                for a in atoms:
+                    if a[0] != "obj" or a in seen:
+                        continue
+                    if it.obj_class(a) == ROOT:
+                        if not here:
+                            bad.append(depth)
+                    elif it.obj_kind(a) in ("tuple", "frozenset", "list", "set") and depth < 6:
+                        walk(below, it.elements(frozenset([a])), depth + 1, seen | {a})
+            walk([tg.field_type(f)], vals, 0, frozenset())
+            if bad:
+                rep.add(rule, f"{ci.qual}.{f.name}::decoded code objects only where declared", False, loc(ci.module, f.node),
+                        f"the decoder can store a decoded code object {bad[0]} container level(s) inside {ci.name}.{f.name}, whose declared type {tg.show(tg.field_type(f))[:80]} has no CodeData "
+                        f"there: __iter__ / all_code_data() look where the types say a CodeData can be (R14.1), so this nested code object and everything below it is never yielded", config=vname(V))
+    if n_fields < 40:
+        raise AnalysisError(f"only {n_fields} (instance, field) pairs of the data model found in the decode closures: the heap walk lost its anchor")
+    rep.add(rule, "decoded code objects sit at declared positions", True, "code_data/", f"{n_fields} (instance, field) pairs of the decode closures examined", nontrivial=False)
